@@ -71,6 +71,8 @@ class Evaluator:
             return e['v']
         if k == 'str':
             return StrVal(e['b'])
+        if k == 'float':
+            return float(e['v'])
         if k == 'cast':
             ck = e.get('ck')
             if ck == 'NullToPointer':
@@ -89,8 +91,17 @@ class Evaluator:
                 if t.get('bits'):
                     return wrap(v, t['bits'], t.get('sg', True))
                 return v
-            if ck in ('IntegralToBoolean', 'PointerToBoolean'):
+            if ck in ('IntegralToBoolean', 'PointerToBoolean', 'FloatingToBoolean'):
                 return int(v != 0)
+            if ck in ('IntegralToFloating', 'FloatingCast'):
+                return float(v)
+            if ck == 'FloatingToIntegral':
+                t = T(self.f, e.get('t'))
+                iv = int(v)
+                r_ = wrap(iv, t['bits'], t.get('sg', True)) if t.get('bits') else iv
+                if r_ != iv:
+                    raise Undecidable('floating value %r outside the range of %s' % (v, t.get('s')))
+                return iv
             if ck == 'ArrayToPointerDecay':
                 return v
             raise Undecidable('cast %s' % ck)
